@@ -27,7 +27,7 @@ ASSUMPTIONS = ["the ZCash format as written in vf/model/bls12381.py (sign = lexi
 ENGINE = "hypothesis + exhaustive flag/value grids"
 TECHNIQUE = ("round-trip and differential property-based testing (Hypothesis) + exhaustive flag/value grids + atheris/libFuzzer campaigns (thorough) against a model of the ZCash format")
 _REQ = ["rt:G1:non_subgroup", "rt:G2:non_subgroup", "rt:G2:y_im=0", "rt:G2:y_re=0", "rt:G1:y_at_boundary", "rt:G2:y_at_boundary",
-        "rt:G1:inf", "rt:G2:inf", "rt:G1:scaled", "rt:G2:scaled", "word:G1:accept", "word:G2:accept",
+        "rt:G2:fq_object_coefficients", "rt:G1:inf", "rt:G2:inf", "rt:G1:scaled", "rt:G2:scaled", "word:G1:accept", "word:G2:accept",
         "word:G1:reject:x>=p", "word:G2:reject:x1>=p", "word:G2:reject:x0>=p",
         "word:G2:reject:flags_in_second_word", "word:G1:reject:not_on_curve", "word:G2:reject:not_on_curve",
         "word:G1:reject:c_flag", "word:G1:reject:inf_a_flag", "word:G1:reject:inf_x_nonzero",
@@ -57,7 +57,9 @@ def o_roundtrip(ctx, case):
     scale = bc.unjel(case.get("scale", 1 if g == "G1" else [1, 0]))
     sub = "rt_" + g
     ctx.begin(sub, case)
-    lp = bc.lib_point(g, pt, scale=scale, inf_rep=case.get("inf_rep", 0))
+    lp = bc.lib_point(g, pt, scale=scale, inf_rep=case.get("inf_rep", 0), fq_coeffs=bool(case.get("fq_coeffs")))
+    if case.get("fq_coeffs") and g == "G2" and pt is not None:
+        ctx.label("rt:G2:fq_object_coefficients")
     key = {"curve": g}
     if g == "G1" and pt is not None:
         key.update({"x": pt[0], "b_flag": 0})
@@ -331,12 +333,13 @@ def s_word(g):
 
 def s_roundtrip(g):
     def attach(t):
-        d, sc, ir = t
+        d, sc, ir, fq = t
         d = dict(d)
         d["scale"] = sc
         d["inf_rep"] = ir
+        d["fq_coeffs"] = fq
         return d
-    return st.tuples(bc.point_desc(g), bc.scale_for(g), st.integers(0, 4)).map(attach)
+    return st.tuples(bc.point_desc(g), bc.scale_for(g), st.integers(0, 4), st.sampled_from([False, False, True])).map(attach)
 
 
 def t_grid(ctx, g):
@@ -357,7 +360,9 @@ def t_roundtrip(ctx, g, shard, n):
     if shard == 0:
         gen = BLS.G1 if g == "G1" else BLS.G2
         one = 1 if g == "G1" else [1, 0]
-        ex = [{"g": g, "kind": "G", "pt": bc.jp(gen), "scale": one, "inf_rep": 0}]
+        ex = [{"g": g, "kind": "G", "pt": bc.jp(gen), "scale": one, "inf_rep": 0},
+              {"g": g, "kind": "G", "pt": bc.jp(gen), "scale": one, "inf_rep": 0, "fq_coeffs": True},
+              {"g": g, "kind": "5G", "pt": bc.jp(bc.kg(g, 5)), "scale": one, "inf_rep": 0, "fq_coeffs": True}]
         ex += [{"g": g, "kind": "inf", "pt": None, "scale": one, "inf_rep": i} for i in range(5)]
         if g == "G1":
             ex += [{"g": g, "kind": "x=0", "pt": [0, 2], "scale": 1, "inf_rep": 0},
